@@ -1,4 +1,5 @@
 import ElaVerif.Model.CCPolicy
+import ElaVerif.Model.PolicyCtx
 import ElaVerif.Lemmas.CCPolicy
 import ElaVerif.Gen.C31
 /-!
@@ -207,5 +208,37 @@ theorem C31_gen_setup_order :
       "common/config/settings.enforceCrossChainUTXORestrictionHeights" Gen.C31.setupConfigCalls = true ∧
     firstBefore "common/config/settings.enforceCrossChainUTXORestrictionHeights"
       "(*common/config.Configuration).Sterilize" Gen.C31.setupConfigCalls = true := by decide
+
+/-- the policy is called with the transaction, the resolved references, the **block height of the
+    validation context** and the two configured heights, in this order -/
+theorem C31_gen_call_args :
+    Gen.C31.policyCallArgs =
+      ["t.parameters.Transaction", "references", "t.parameters.BlockHeight",
+       "t.parameters.Config.CrossChainUTXOFreezeHeight", "t.parameters.Config.CrossChainUTXORestrictionHeight"] := by
+  decide
+
+/-! ## through `ContextCheck` (model of the `ctx` ops: the real context check on an in-process node) -/
+
+open ElaVerif.PolicyCtx in
+/-- In the freeze window the context check does not pass a transaction that spends a cross-chain
+    UTXO — whatever the frozen list says, whatever the outputs are. -/
+theorem C31_context_freeze (ty ver h f r : Nat) (frozen : List Frozen.Entry) (ins outs : List Nat)
+    (hf : f ≤ h) (hr : h < r) (hcc : hasCC (ins.map prefixOf) = true) :
+    contextPolicies ty ver h f r frozen ins outs = .cc .frozen := by
+  simp [contextPolicies, C31_freeze ty ver (ins.map prefixOf) h f r hf hr hcc]
+
+open ElaVerif.PolicyCtx in
+/-- After the restriction height, whatever passes the context check while spending a cross-chain
+    UTXO is one of the two bridge transaction shapes. -/
+theorem C31_context_restricted (ty ver h f r : Nat) (frozen : List Frozen.Entry) (ins outs : List Nat)
+    (hfr : f ≤ r) (hr : r ≤ h) (hcc : hasCC (ins.map prefixOf) = true)
+    (hp : contextPolicies ty ver h f r frozen ins outs = .passed) :
+    (ty = tyWithdraw ∧ (ver = 0 ∨ ver = 1 ∨ ver = 2)) ∨
+    (ty = tyReturn ∧ ver = 0 ∧ ∀ p ∈ ins.map prefixOf, p = prefixCrossChain) := by
+  apply C31_restricted ty ver (ins.map prefixOf) h f r hfr hr hcc
+  unfold contextPolicies at hp
+  cases hv : ccPolicy ty ver (ins.map prefixOf) h f r <;> simp [hv] at hp ⊢
+
+example : PolicyCtx.contextPolicies 2 0 4 2 6 [] [88, 79] [79] = .cc .frozen := by decide
 
 end ElaVerif.C31
